@@ -199,7 +199,23 @@ def search(ctx, boost=False):
         if len(s.samples) < 2 and gs:
             st, en, kind, a, b = gs[0]
             s.samples.append(dict(source=text[:300], gap=[st, en], alphabet=kind))
+    # directive lines are read line-aware: every gap of a few directive lines x the whole alphabet of that gap, exhaustively
+    for text in DIRECTIVE_TEXTS:
+        base = impl.parse_string(text)
+        for (st, en, kind, a, b) in gaps_safe(text):
+            for lay in layouts_for(kind, a, b, rng, 1000):
+                s.evaluations += 1
+                s.count("directive:" + kind.split("|")[0])
+                if lay != text[st:en]:
+                    s.nontrivial.add((text, st, lay))
+                msg = check_relayout(text, base, st, en, lay)
+                if msg:
+                    s.violations.append(dict(what=msg, case=dict(kind="relayout", source=text, start=st, end=en, layout=lay)))
     return s
+
+
+DIRECTIVE_TEXTS = ["#pragma omp parallel for schedule(static, 4)\nvoid f();\n", "int a;\n#pragma pack(push, 1)\nstruct S { int a; };\n#pragma pack(pop)\n",
+                   "#pragma once\n#include <a.h>\nint x;\n#include \"b/c.h\"\n#pragma GCC diagnostic ignored \"-Wall\"\nint y;\n"]
 
 
 def replay(ctx, case):
